@@ -28,6 +28,9 @@ FN = "KernelDG.check_for_loopcarried_dep"
 
 
 def run(ctx):
+    C.require_locals(ctx, ctx.func('KernelDG.check_for_loopcarried_dep'), ['timeout', 'all_paths', 'dg'])
+    C.require_locals(ctx, ctx.func('KernelDG.__init__'), ['timeout'])
+    C.require_locals(ctx, ctx.func('osaca.inspect'), ['args'])
     f = ctx.func(FN)
     init = ctx.func("KernelDG.__init__")
     ext = ctx.func("KernelDG._extend_path")
